@@ -196,6 +196,12 @@ def check_property(prop, cfg, tier, seed, replay=None):
                                                            model=lean[i] if i < len(lean) else None)
                                                       for i in range(0, len(ops), step)][:6]))
             # classify disagreements
+            # `tie_lines`: op lines written by the generator when it could not go on exploring on the code under test
+            # (e.g. `genfail`: the chain library's valid block was refused). A disagreement on such a line is not an
+            # input on which THIS property fails; it is a broken tie, reported as no-failing-input-found.
+            tie_rx = [re.compile(x) for x in m.get("tie_lines", [])]
+            def is_tie(b):
+                return any(rx.search(b["op"]) for rx in tie_rx)
             if stateful:
                 firsts, seen = [], set()
                 seqs = sequences(ops)
@@ -210,16 +216,16 @@ def check_property(prop, cfg, tier, seed, replay=None):
                     last = bad2[0] if bad2 else b
                     desc = f"{mode}: " + " ; ".join(small) + f" => go={last['go']} model={last['model']}" + (f" spec={last['spec']}" if last["spec"] is not None else "")
                     violations.append(dict(descriptor=desc, mode=mode, ops=small, first_bad=last,
-                                           no_input=not (last["vs_spec"] or last["spec"] is None)))
+                                           no_input=is_tie(last) or not (last["vs_spec"] or last["spec"] is None)))
                 for si, a, b in firsts[m.get("max_shrinks", 6):]:
                     desc = f"{mode}: (unshrunk) " + " ; ".join(ops[a:b['line'] + 1][-40:]) + f" => go={b['go']} model={b['model']}"
                     violations.append(dict(descriptor=desc, mode=mode, ops=ops[a:b["line"] + 1], first_bad=b,
-                                           no_input=not (b["vs_spec"] or b["spec"] is None)))
+                                           no_input=is_tie(b) or not (b["vs_spec"] or b["spec"] is None)))
             else:
                 for b in bad:
                     desc = f"{mode}: {b['op']} => go={b['go']} model={b['model']}" + (f" spec={b['spec']}" if b["spec"] is not None else "")
                     # the model is the oracle when no separate spec column is printed
-                    no_input = not (b["vs_spec"] or b["spec"] is None)
+                    no_input = is_tie(b) or not (b["vs_spec"] or b["spec"] is None)
                     violations.append(dict(descriptor=desc, mode=mode, ops=[b["op"]], first_bad=b, no_input=no_input))
 
     # property-specific extra step (may add violations / coverage)
